@@ -92,8 +92,11 @@ DecState(t, b, p) ==
 
 -----------------------------------------------------------------------------
 (* column data *)
+\* TLC keeps [i \in 1..n |-> e] as an unevaluated function and re-evaluates e on every application and the
+\* whole function on every SubSeq; AsTuple makes it a plain tuple once
+AsTuple(f) == f \o <<>>
 FixedRun(b, p, n, w) == IF p + n * w > Len(b) THEN Short
-                        ELSE OK([i \in 1..n |-> SubSeq(b, p + (i - 1) * w + 1, p + i * w)], p + n * w)
+                        ELSE OK(AsTuple([i \in 1..n |-> SubSeq(b, p + (i - 1) * w + 1, p + i * w)]), p + n * w)
 
 \* n strings, one after the other
 RECURSIVE StrRun(_, _, _, _)
@@ -103,7 +106,7 @@ StrRun(b, p, n, acc) == IF n = 0 THEN OK(acc, p)
 \* n cumulative u64 offsets: non-decreasing
 Offsets(b, p, n) ==
   IF p + 8 * n > Len(b) THEN Short
-  ELSE LET off == [i \in 1..n |-> LE(b, p + 8 * (i - 1), 8).v] IN
+  ELSE LET off == AsTuple([i \in 1..n |-> LE(b, p + 8 * (i - 1), 8).v]) IN
        IF \E i \in 1..n : off[i] < 0 \/ (i > 1 /\ off[i] < off[i - 1]) THEN Bad ELSE OK(off, p + 8 * n)
 Slice(vals, off, i) == SubSeq(vals, (IF i = 1 THEN 0 ELSE off[i - 1]) + 1, off[i])
 
@@ -121,33 +124,33 @@ DecCol(t, n, b, p) ==
                        ELSE IF \E i \in 1..n : b[p + i] > 1 THEN Bad ELSE FixedRun(b, p, n, 1)
     [] t.k = "fstring" -> FixedRun(b, p, n, t.n)
     [] t.k = "uuid" -> LET r == FixedRun(b, p, n, 16) IN
-                       IF ~r.ok THEN r ELSE OK([i \in 1..n |-> Rev(SubSeq(r.v[i], 1, 8)) \o Rev(SubSeq(r.v[i], 9, 16))], r.p)
+                       IF ~r.ok THEN r ELSE OK(AsTuple([i \in 1..n |-> Rev(SubSeq(r.v[i], 1, 8)) \o Rev(SubSeq(r.v[i], 9, 16))]), r.p)
     [] t.k = "string" -> StrRun(b, p, n, <<>>)
-    [] t.k = "nothing" -> IF p + n > Len(b) THEN Short ELSE OK([i \in 1..n |-> <<>>], p + n)
+    [] t.k = "nothing" -> IF p + n > Len(b) THEN Short ELSE OK(AsTuple([i \in 1..n |-> <<>>]), p + n)
     [] t.k = "point" -> LET x == FixedRun(b, p, n, 8) IN IF ~x.ok THEN x ELSE
                         LET y == FixedRun(b, x.p, n, 8) IN IF ~y.ok THEN y ELSE
-                        OK([i \in 1..n |-> <<x.v[i], y.v[i]>>], y.p)
+                        OK(AsTuple([i \in 1..n |-> <<x.v[i], y.v[i]>>]), y.p)
     [] t.k = "nullable" ->
          IF p + n > Len(b) THEN Short
          ELSE IF \E i \in 1..n : b[p + i] > 1 THEN Bad
          ELSE LET r == DecCol(t.e, n, b, p + n) IN
-              IF ~r.ok THEN r ELSE OK([i \in 1..n |-> IF b[p + i] = 1 THEN <<>> ELSE <<r.v[i]>>], r.p)
+              IF ~r.ok THEN r ELSE OK(AsTuple([i \in 1..n |-> IF b[p + i] = 1 THEN <<>> ELSE <<r.v[i]>>]), r.p)
     [] t.k = "array" ->
          LET o == Offsets(b, p, n) IN IF ~o.ok THEN o ELSE
          LET total == IF n = 0 THEN 0 ELSE o.v[n]
              r == DecCol(t.e, total, b, o.p) IN
-         IF ~r.ok THEN r ELSE OK([i \in 1..n |-> Slice(r.v, o.v, i)], r.p)
+         IF ~r.ok THEN r ELSE OK(AsTuple([i \in 1..n |-> Slice(r.v, o.v, i)]), r.p)
     [] t.k = "map" ->
          IF n = 0 THEN OK(<<>>, p) ELSE
          LET o == Offsets(b, p, n) IN IF ~o.ok THEN o ELSE
          LET total == o.v[n]
              ks == DecCol(t.key, total, b, o.p) IN IF ~ks.ok THEN ks ELSE
          LET vs == DecCol(t.val, total, b, ks.p) IN IF ~vs.ok THEN vs ELSE
-         LET kv == [j \in 1..total |-> <<ks.v[j], vs.v[j]>>] IN
-         OK([i \in 1..n |-> Slice(kv, o.v, i)], vs.p)
+         LET kv == AsTuple([j \in 1..total |-> <<ks.v[j], vs.v[j]>>]) IN
+         OK(AsTuple([i \in 1..n |-> Slice(kv, o.v, i)]), vs.p)
     [] t.k = "tuple" ->
          LET r == DecCols(t.es, n, b, p) IN
-         IF ~r.ok THEN r ELSE OK([i \in 1..n |-> [e \in 1..Len(t.es) |-> r.v[e][i]]], r.p)
+         IF ~r.ok THEN r ELSE OK(AsTuple([i \in 1..n |-> [e \in 1..Len(t.es) |-> r.v[e][i]]]), r.p)
     [] t.k = "lc" ->
          IF n = 0 THEN OK(<<>>, p) ELSE
          IF p + 8 > Len(b) THEN Short ELSE
@@ -160,9 +163,9 @@ DecCol(t, n, b, p) ==
          LET dict == DecCol(t.e, dn.v, b, dn.p) IN IF ~dict.ok THEN dict ELSE
          LET kn == LE(b, dict.p, 8) IN IF ~kn.ok THEN kn ELSE IF kn.v # n THEN Bad ELSE
          IF kn.p + n * w > Len(b) THEN Short ELSE
-         LET key == [i \in 1..n |-> LE(b, kn.p + (i - 1) * w, w).v] IN
+         LET key == AsTuple([i \in 1..n |-> LE(b, kn.p + (i - 1) * w, w).v]) IN
          IF \E i \in 1..n : key[i] < 0 \/ key[i] >= dn.v THEN Bad
-         ELSE OK([i \in 1..n |-> dict.v[key[i] + 1]], kn.p + n * w)
+         ELSE OK(AsTuple([i \in 1..n |-> dict.v[key[i] + 1]]), kn.p + n * w)
 
 -----------------------------------------------------------------------------
 (* A canonical encoder, written independently of the decoder above, for the *)
